@@ -264,12 +264,16 @@ TxReplace(e) ==
 \* ---- Confirm / Cancel / expiry --------------------------------------------------------
 Matches(e) == open.id = e.id /\ open.id # "-"
 
+\* a presence container exists on the device when it was set explicitly or when a leaf below it exists: both spellings
+\* of the same configuration are equal for "restored"
+PresNorm(d) == LET implied == {UPresenceParent[x] : x \in {y \in DOMAIN d : y \in AllLeaf /\ UPresenceParent[y] # "-"}}
+               IN [x \in (DOMAIN d) \cup implied |-> IF x \in DOMAIN d THEN d[x] ELSE "e:"]
 RollbackClauses(e, o) ==
   IF ~txn.valid THEN {<<"M", "RollbackWithoutTxn", FALSE>>} ELSE
   {<<"C05", "StoreRestored", o.I = RestoredStore(intended, txn.snap)>>,
    <<"C05", "StoreAsBefore", o.I = txn.I>>,
-   <<"C05", "DeviceRestored", IF txn.repl THEN o.d = txn.dev   \* a replace intent touched the whole configuration
-                              ELSE \A x \in TouchedLeaves(txn.snap, txn.req) : Get(o.d, x) = Get(txn.dev, x)>>,
+   <<"C05", "DeviceRestored", IF txn.repl THEN PresNorm(o.d) = PresNorm(txn.dev)   \* a replace intent touched the whole configuration
+                              ELSE \A x \in TouchedLeaves(txn.snap, txn.req) : Get(PresNorm(o.d), x) = Get(PresNorm(txn.dev), x)>>,
    <<"C05", "RunningRestoredAfterReplace", (txn.repl /\ txn.req = {}) => o.m = txn.m>>,
    <<"C06", "ClosedAfterRollback", o.open.id = "-">>}
 
